@@ -106,10 +106,10 @@ def walk(node):
     return ('node?', type(node).__name__)
 
 
-def parse_obs(text):
+def parse_obs(text, names=None):
     try:
         with lib.time_limit():
-            tree = lib.xlparser.FormulaParser().parse(text, {})
+            tree = lib.xlparser.FormulaParser().parse(text, dict(names or {}))
             return repr(walk(tree))
     except lib.CaseTimeout:
         return 'timeout'
@@ -180,8 +180,9 @@ def judge_tree(family, tree, mode, ctx, max_exh=9, with_terms=True):
         {'str:delimiter', 'str:quote', 'ref:quoted-sheet',
          'ref:range'} & set(feats))
     tk = tree_key(tree)
+    names = F.NAMES if family == 'names' else None
     for vname, text in ws_variants(toks, mode, max_exh):
-        got = parse_obs(text)
+        got = parse_obs(text, names)
         key = 'C02/%s/%s/%s' % (family, tk, vname)
         tags = list(feats)
         if vname.startswith('ws') or vname.startswith('nl'):
@@ -271,6 +272,9 @@ def family_items(name, tier):
     if name == 'three-tiny':
         return list(F.compose(3, F.TINY_LEAVES, ops=['^', '+', '&', '='],
                               funcs=('SUM',)))
+    if name == 'names':
+        return (list(F.NAME_LEAVES) + list(F.trees_one(F.NAME_LEAVES)) +
+                list(F.calls(['IF', 'SUM'], F.NAME_LEAVES, 3)))
     if name == 'paren':
         out = []
         for t in itertools.chain(F.compose(1, F.TINY_LEAVES),
@@ -286,7 +290,7 @@ def family_items(name, tier):
 FAMILIES = {
     'leaf': 'exhaustive', 'one-full': 'few', 'calls-full': 'few',
     'calls-3': 'few', 'small-exh': 'exhaustive', 'two-reduced': 'few',
-    'paren': 'few', 'strings': 'single',
+    'paren': 'few', 'strings': 'single', 'names': 'few',
 }
 _ITEMS = {}
 
@@ -324,7 +328,8 @@ def run_shard(shard, ctx):
                        'single' if placement != 'alone' else 'few', ctx,
                        max_exh, with_terms=(placement == 'alone'))
         else:
-            judge_tree(name, it, mode, ctx, max_exh)
+            judge_tree(name, it, mode, ctx, max_exh,
+                       with_terms=(name != 'names'))
     if shard['lo'] == 0 and its:
         t = its[0] if name != 'strings' else string_tree(*its[-1])
         ctx.sample({'family': name, 'text': F.render(F.tokens(t)),
@@ -363,7 +368,8 @@ def replay(inputs, ctx):
     else:
         verdict(ctx, 'C02/%s/%s/%s' % (inputs['family'], tk,
                                        inputs['variant']),
-                parse_obs(text), want, feats, inputs, True, 'tree')
+                parse_obs(text, F.NAMES if inputs['family'] == 'names'
+                          else None), want, feats, inputs, True, 'tree')
 
 
 def selftest():
